@@ -45,6 +45,7 @@ type Cfg struct {
 	Seed     int     `json:"seed"`   // Unfold seed
 	Gate     bool    `json:"gate"`   // user calls block until released
 	StdErr   bool    `json:"stderr"` // attach pipe.StdErr to the error channel instead of a harness consumer
+	Stages   []Cfg   `json:"stages,omitempty"` // kind Pipeline: the stages, first to last (their error channels go to pipe.StdErr)
 }
 
 type Cmd struct {
@@ -173,9 +174,29 @@ type failure struct{ x int }
 
 func (f failure) Error() string { return strconv.Itoa(f.x) }
 
-func (c *ctl) fnMap(x int) (int, error) {
-	c.enter(0, x)
-	if c.failSet[x] {
+// fnset is one set of harness-owned user functions (a pipeline has one per stage).
+type fnset struct {
+	c      *ctl
+	fail   map[int]bool
+	pred   map[int]bool
+	monoid string
+	step   string
+}
+
+func (c *ctl) fns(cfg Cfg) *fnset {
+	fs := &fnset{c: c, fail: map[int]bool{}, pred: map[int]bool{}, monoid: cfg.Monoid, step: cfg.Step}
+	for _, x := range cfg.Fail {
+		fs.fail[x] = true
+	}
+	for _, x := range cfg.Pred {
+		fs.pred[x] = true
+	}
+	return fs
+}
+
+func (fs *fnset) fnMap(x int) (int, error) {
+	fs.c.enter(0, x)
+	if fs.fail[x] {
 		return 0, failure{x}
 	}
 	return 10 * x, nil
@@ -188,9 +209,9 @@ func images(x int) []int {
 	return []int{10 * x}
 }
 
-func (c *ctl) fnArrow(ctx context.Context, x int, out chan<- int) error {
-	c.enter(0, x)
-	if c.failSet[x] {
+func (fs *fnset) fnArrow(ctx context.Context, x int, out chan<- int) error {
+	fs.c.enter(0, x)
+	if fs.fail[x] {
 		return failure{x}
 	}
 	for _, y := range images(x) {
@@ -203,22 +224,22 @@ func (c *ctl) fnArrow(ctx context.Context, x int, out chan<- int) error {
 	return nil
 }
 
-func (c *ctl) fnPred(x int) (bool, error) {
-	c.enter(0, x)
-	if c.failSet[x] {
+func (fs *fnset) fnPred(x int) (bool, error) {
+	fs.c.enter(0, x)
+	if fs.fail[x] {
 		return true, failure{x}
 	}
-	return c.predSet[x], nil
+	return fs.pred[x], nil
 }
 
-func (c *ctl) fnEach(x int) (int, error) {
-	c.enter(0, x)
+func (fs *fnset) fnEach(x int) (int, error) {
+	fs.c.enter(0, x)
 	return x, nil
 }
 
-func (c *ctl) fnEmit(i int) (int, error) {
-	c.enter(0, i)
-	if c.failSet[i] {
+func (fs *fnset) fnEmit(i int) (int, error) {
+	fs.c.enter(0, i)
+	if fs.fail[i] {
 		return 0, failure{i}
 	}
 	return 100 + i, nil
@@ -234,12 +255,12 @@ func StepFn(step string, s int) int {
 	return s + 1
 }
 
-func (c *ctl) fnStep(s int) (int, error) {
-	c.enter(0, s)
-	if c.failSet[s] {
+func (fs *fnset) fnStep(s int) (int, error) {
+	fs.c.enter(0, s)
+	if fs.fail[s] {
 		return s, failure{s}
 	}
-	return StepFn(c.cfg.Step, s), nil
+	return StepFn(fs.step, s), nil
 }
 
 func MonoidOf(name string) (empty int, op func(a, b int) int) {
@@ -260,10 +281,10 @@ func MonoidOf(name string) (empty int, op func(a, b int) int) {
 	return 0, func(a, b int) int { return a + b }
 }
 
-func (c *ctl) monoid() monoid.Monoid[int] {
-	empty, op := MonoidOf(c.cfg.Monoid)
+func (fs *fnset) mono() monoid.Monoid[int] {
+	empty, op := MonoidOf(fs.monoid)
 	return monoid.FromOp(empty, func(a, b int) int {
-		c.enter(a, b)
+		fs.c.enter(a, b)
 		return op(a, b)
 	})
 }
@@ -348,8 +369,16 @@ func (c *ctl) build() {
 		in = c.ins[0]
 	}
 	ctx := c.ctx
+	fs := c.fns(cfg)
 	freq := time.Duration(cfg.Freq) * Unit
 	switch {
+	case cfg.Kind == "Pipeline":
+		cur := in
+		for _, st := range cfg.Stages {
+			cur = c.pipeStage(st, cur)
+		}
+		out := cur
+		c.addOut("out", intReader(out), func() int { return len(out) })
 	case cfg.Kind == "Seq":
 		var out <-chan int
 		if cfg.Forked {
@@ -381,66 +410,66 @@ func (c *ctl) build() {
 		c.newSnd = snd
 		c.addOut("out", intReader(rcv), func() int { return len(rcv) })
 	case cfg.Kind == "Emit" && !cfg.Forked:
-		out, exx := pipe.Emit(ctx, cfg.Cap, freq, pf(cfg.Mode, c.fnEmit))
+		out, exx := pipe.Emit(ctx, cfg.Cap, freq, pf(cfg.Mode, fs.fnEmit))
 		c.valErr(out, exx)
 	case cfg.Kind == "Emit":
-		out, exx := fork.Emit(ctx, cfg.Cap, freq, ff(cfg.Mode, c.fnEmit))
+		out, exx := fork.Emit(ctx, cfg.Cap, freq, ff(cfg.Mode, fs.fnEmit))
 		c.valErr(out, exx)
 	case cfg.Kind == "Unfold" && !cfg.Forked:
-		out, exx := pipe.Unfold(ctx, cfg.Cap, cfg.Seed, pf(cfg.Mode, c.fnStep))
+		out, exx := pipe.Unfold(ctx, cfg.Cap, cfg.Seed, pf(cfg.Mode, fs.fnStep))
 		c.valErr(out, exx)
 	case cfg.Kind == "Unfold":
-		out, exx := fork.Unfold(ctx, cfg.Cap, cfg.Seed, ff(cfg.Mode, c.fnStep))
+		out, exx := fork.Unfold(ctx, cfg.Cap, cfg.Seed, ff(cfg.Mode, fs.fnStep))
 		c.valErr(out, exx)
 	case cfg.Kind == "Map" && !cfg.Forked:
-		out, exx := pipe.Map(ctx, in, pf(cfg.Mode, c.fnMap))
+		out, exx := pipe.Map(ctx, in, pf(cfg.Mode, fs.fnMap))
 		c.valErr(out, exx)
 	case cfg.Kind == "Map":
-		out, exx := fork.Map(ctx, cfg.Par, in, ff(cfg.Mode, c.fnMap))
+		out, exx := fork.Map(ctx, cfg.Par, in, ff(cfg.Mode, fs.fnMap))
 		c.valErr(out, exx)
 	case cfg.Kind == "FMap" && !cfg.Forked:
 		var f pipe.FF[int, int]
 		if cfg.Mode == "try" {
-			f = pipe.TryF(c.fnArrow)
+			f = pipe.TryF(fs.fnArrow)
 		} else {
-			f = pipe.LiftF(c.fnArrow)
+			f = pipe.LiftF(fs.fnArrow)
 		}
 		out, exx := pipe.FMap(ctx, in, f)
 		c.valErr(out, exx)
 	case cfg.Kind == "FMap":
 		var f fork.FF[int, int]
 		if cfg.Mode == "try" {
-			f = fork.TryF(c.fnArrow)
+			f = fork.TryF(fs.fnArrow)
 		} else {
-			f = fork.LiftF(c.fnArrow)
+			f = fork.LiftF(fs.fnArrow)
 		}
 		out, exx := fork.FMap(ctx, cfg.Par, in, f)
 		c.valErr(out, exx)
 	case cfg.Kind == "Filter" && !cfg.Forked:
-		out := pipe.Filter(ctx, in, pf(cfg.Mode, c.fnPred))
+		out := pipe.Filter(ctx, in, pf(cfg.Mode, fs.fnPred))
 		c.addOut("out", intReader(out), func() int { return len(out) })
 	case cfg.Kind == "Filter":
-		out := fork.Filter(ctx, cfg.Par, in, ff(cfg.Mode, c.fnPred))
+		out := fork.Filter(ctx, cfg.Par, in, ff(cfg.Mode, fs.fnPred))
 		c.addOut("out", intReader(out), func() int { return len(out) })
 	case cfg.Kind == "TakeWhile" && !cfg.Forked:
-		out := pipe.TakeWhile(ctx, in, pf(cfg.Mode, c.fnPred))
+		out := pipe.TakeWhile(ctx, in, pf(cfg.Mode, fs.fnPred))
 		c.addOut("out", intReader(out), func() int { return len(out) })
 	case cfg.Kind == "TakeWhile":
-		out := fork.TakeWhile(ctx, in, ff(cfg.Mode, c.fnPred))
+		out := fork.TakeWhile(ctx, in, ff(cfg.Mode, fs.fnPred))
 		c.addOut("out", intReader(out), func() int { return len(out) })
 	case cfg.Kind == "Partition" && !cfg.Forked:
-		l, r := pipe.Partition(ctx, in, pf(cfg.Mode, c.fnPred))
+		l, r := pipe.Partition(ctx, in, pf(cfg.Mode, fs.fnPred))
 		c.addOut("out", intReader(l), func() int { return len(l) })
 		c.addOut("rout", intReader(r), func() int { return len(r) })
 	case cfg.Kind == "Partition":
-		l, r := fork.Partition(ctx, cfg.Par, in, ff(cfg.Mode, c.fnPred))
+		l, r := fork.Partition(ctx, cfg.Par, in, ff(cfg.Mode, fs.fnPred))
 		c.addOut("out", intReader(l), func() int { return len(l) })
 		c.addOut("rout", intReader(r), func() int { return len(r) })
 	case cfg.Kind == "ForEach" && !cfg.Forked:
-		d := pipe.ForEach(ctx, in, pf(cfg.Mode, c.fnEach))
+		d := pipe.ForEach(ctx, in, pf(cfg.Mode, fs.fnEach))
 		c.addOut("res", unitReader(d), func() int { return len(d) })
 	case cfg.Kind == "ForEach":
-		d := fork.ForEach(ctx, cfg.Par, in, ff(cfg.Mode, c.fnEach))
+		d := fork.ForEach(ctx, cfg.Par, in, ff(cfg.Mode, fs.fnEach))
 		c.addOut("res", unitReader(d), func() int { return len(d) })
 	case cfg.Kind == "Void" && !cfg.Forked:
 		d := pipe.Void(ctx, in)
@@ -449,10 +478,10 @@ func (c *ctl) build() {
 		d := fork.Void(ctx, cfg.Par, in)
 		c.addOut("res", unitReader(d), func() int { return len(d) })
 	case cfg.Kind == "Fold" && !cfg.Forked:
-		d := pipe.Fold(ctx, in, c.monoid())
+		d := pipe.Fold(ctx, in, fs.mono())
 		c.addOut("res", intReader(d), func() int { return len(d) })
 	case cfg.Kind == "Fold":
-		d := fork.Fold(ctx, cfg.Par, in, c.monoid())
+		d := fork.Fold(ctx, cfg.Par, in, fs.mono())
 		c.addOut("res", intReader(d), func() int { return len(d) })
 	case cfg.Kind == "Take" && !cfg.Forked:
 		out := pipe.Take(ctx, in, cfg.N)
@@ -484,6 +513,43 @@ func (c *ctl) build() {
 		panic("unknown kind " + cfg.Kind)
 	}
 	sort.Strings(c.outName)
+}
+
+// pipeStage builds one int -> int stage of a pipeline; its error channel (if any) goes to pipe.StdErr.
+func (c *ctl) pipeStage(st Cfg, in <-chan int) <-chan int {
+	fs := c.fns(st)
+	ctx := c.ctx
+	switch {
+	case st.Kind == "Map" && !st.Forked:
+		return pipe.StdErr(pipe.Map(ctx, in, pf(st.Mode, fs.fnMap)))
+	case st.Kind == "Map":
+		return fork.StdErr(fork.Map(ctx, st.Par, in, ff(st.Mode, fs.fnMap)))
+	case st.Kind == "FMap" && !st.Forked:
+		if st.Mode == "try" {
+			return pipe.StdErr(pipe.FMap(ctx, in, pipe.TryF(fs.fnArrow)))
+		}
+		return pipe.StdErr(pipe.FMap(ctx, in, pipe.LiftF(fs.fnArrow)))
+	case st.Kind == "FMap":
+		if st.Mode == "try" {
+			return fork.StdErr(fork.FMap(ctx, st.Par, in, fork.TryF(fs.fnArrow)))
+		}
+		return fork.StdErr(fork.FMap(ctx, st.Par, in, fork.LiftF(fs.fnArrow)))
+	case st.Kind == "Filter" && !st.Forked:
+		return pipe.Filter(ctx, in, pf(st.Mode, fs.fnPred))
+	case st.Kind == "Filter":
+		return fork.Filter(ctx, st.Par, in, ff(st.Mode, fs.fnPred))
+	case st.Kind == "TakeWhile":
+		return pipe.TakeWhile(ctx, in, pf(st.Mode, fs.fnPred))
+	case st.Kind == "Take":
+		return pipe.Take(ctx, in, st.N)
+	case st.Kind == "Fold" && !st.Forked:
+		return pipe.Fold(ctx, in, fs.mono())
+	case st.Kind == "Fold":
+		return fork.Fold(ctx, st.Par, in, fs.mono())
+	case st.Kind == "Throttling":
+		return pipe.Throttling(ctx, in, st.Ops, time.Duration(st.Interval)*Unit)
+	}
+	panic("pipeline stage " + st.Kind)
 }
 
 // ------------------------------------------------------------------------------------------ snapshot
@@ -916,12 +982,6 @@ func Run(t *testing.T, s Sched) (tr Trace) {
 		c := &ctl{cfg: s.Cfg, outs: map[string]func() (int, bool){}, outLen: map[string]func() int{},
 			recvPend: map[string]bool{}, seen: map[string]bool{}, gates: map[int]chan struct{}{}, callArg: map[int]int{},
 			failSet: map[int]bool{}, predSet: map[int]bool{}, start: time.Now()}
-		for _, x := range s.Cfg.Fail {
-			c.failSet[x] = true
-		}
-		for _, x := range s.Cfg.Pred {
-			c.predSet[x] = true
-		}
 		c.ctx, c.cancel = context.WithCancel(context.Background())
 		c.build()
 		tr.Outs = c.outName
